@@ -86,6 +86,69 @@ def disconnection_pops(l2cap):
     return sorted(set(pops))
 
 
+# ----------------------------------------------------------------------------- next_identifier
+def identifier_function(l2cap):
+    """ChannelManager.next_identifier as a Coq function of the identifier last used on the
+    connection.  Accepted shape (anything else fails closed):
+        identifier = <arith over self.identifiers.setdefault|get(connection.handle, D)>
+        [if identifier == C: identifier = C2]*
+        self.identifiers[connection.handle] = identifier
+        return identifier
+    arithmetic: + - * % over int constants and the table lookup (Python % with a positive
+    modulus on non-negative values is Z.modulo)."""
+    fn = l2cap.ChannelManager.__dict__.get('next_identifier')
+    if fn is None:
+        raise RuntimeError('ChannelManager.next_identifier not found')
+    f = ast.parse(textwrap.dedent(inspect.getsource(fn))).body[0]
+    body = [st for st in f.body if not (isinstance(st, ast.Expr) and isinstance(st.value, ast.Constant))]
+    default = []
+
+    def expr(e):
+        if isinstance(e, ast.Constant) and isinstance(e.value, int) and not isinstance(e.value, bool):
+            return f'({e.value})' if e.value < 0 else str(e.value)
+        if isinstance(e, ast.Name) and e.id == 'identifier':
+            return 'identifier'
+        if isinstance(e, ast.Call) and isinstance(e.func, ast.Attribute) and e.func.attr in ('setdefault', 'get') \
+                and ast.unparse(e.func.value) == 'self.identifiers' and len(e.args) == 2 \
+                and ast.unparse(e.args[0]) == 'connection.handle' and isinstance(e.args[1], ast.Constant) \
+                and isinstance(e.args[1].value, int):
+            default.append(e.args[1].value)
+            return 'last'
+        if isinstance(e, ast.BinOp) and type(e.op) in (ast.Add, ast.Sub, ast.Mult, ast.Mod):
+            if isinstance(e.op, ast.Mod) and not (isinstance(e.right, ast.Constant) and isinstance(e.right.value, int)
+                                                  and e.right.value > 0):
+                raise RuntimeError('next_identifier: modulus is not a positive constant')
+            op = {ast.Add: '+', ast.Sub: '-', ast.Mult: '*', ast.Mod: 'mod'}[type(e.op)]
+            return f'({expr(e.left)} {op} {expr(e.right)})'
+        raise RuntimeError('next_identifier: expression not understood: ' + ast.unparse(e))
+
+    if len(body) < 3:
+        raise RuntimeError('next_identifier: unexpected shape')
+    first, *mid, store, ret = body
+    if not (isinstance(first, ast.Assign) and len(first.targets) == 1 and ast.unparse(first.targets[0]) == 'identifier'):
+        raise RuntimeError('next_identifier: first statement is not `identifier = ...`')
+    lines = [f'  let identifier := {expr(first.value)} in']
+    for st in mid:
+        ok = (isinstance(st, ast.If) and not st.orelse and len(st.body) == 1
+              and isinstance(st.test, ast.Compare) and len(st.test.ops) == 1 and isinstance(st.test.ops[0], ast.Eq)
+              and ast.unparse(st.test.left) == 'identifier' and isinstance(st.test.comparators[0], ast.Constant)
+              and isinstance(st.body[0], ast.Assign) and ast.unparse(st.body[0].targets[0]) == 'identifier')
+        if not ok:
+            raise RuntimeError('next_identifier: statement not understood: ' + ast.unparse(st))
+        lines.append(f'  let identifier := if Z.eqb identifier {expr(st.test.comparators[0])} '
+                     f'then {expr(st.body[0].value)} else identifier in')
+    if ast.unparse(store) != 'self.identifiers[connection.handle] = identifier':
+        raise RuntimeError('next_identifier: the identifier is not stored: ' + ast.unparse(store))
+    if ast.unparse(ret) != 'return identifier':
+        raise RuntimeError('next_identifier: does not return the identifier: ' + ast.unparse(ret))
+    if len(set(default)) != 1:
+        raise RuntimeError('next_identifier: the last identifier is not read exactly once with one default')
+    text = ('(* ChannelManager.next_identifier: the identifier handed out after `last` *)\n'
+            f'Definition id_default : Z := {default[0]}.\n'
+            'Definition next_identifier_of_source (last : Z) : Z :=\n' + '\n'.join(lines) + '\n  identifier.\n')
+    return text
+
+
 def generate(l2cap):
     consts = {
         'le_cid_lo': l2cap.L2CAP_LE_U_DYNAMIC_CID_RANGE_START,
